@@ -165,12 +165,12 @@ type Options struct {
 	Dotted       bool // local definitions with dotted names
 	Invalid      bool // inject one unresolvable or ill-typed reference (compile must fail)
 	NoServices   bool
-	StructConsts bool // constants (and defaults) of struct type written as map literals
-	RecDefaults  bool // recursive structures whose back-pointer has a struct-constant default (open finding F6)
+	StructConsts bool     // constants (and defaults) of struct type written as map literals
+	RecDefaults  bool     // recursive structures whose back-pointer has a struct-constant default (open finding F6)
 	ExtraDirs    []string // further directory names to place files in
-	Unhashable   bool // map keys and set elements that are lists, sets, maps or structs (generated as slices of pairs / slices)
-	Annotations  bool // go.tag / go.nolog / go.redact / go.label / go.type annotations on struct fields
-	Recursive    bool // recursive types: a struct reaching itself through typedef chains / containers / other structs
+	Unhashable   bool     // map keys and set elements that are lists, sets, maps or structs (generated as slices of pairs / slices)
+	Annotations  bool     // go.tag / go.nolog / go.redact / go.label / go.type annotations on struct fields
+	Recursive    bool     // recursive types: a struct reaching itself through typedef chains / containers / other structs
 }
 
 func ch(label string, n int) int { return simrt.Choice(label, n) }
@@ -879,7 +879,7 @@ func (p *Program) genKeyType(f *File) *TypeRef {
 		d := enums[ch("type.key-ref", len(enums))]
 		return &TypeRef{Ref: &Ref{d.File, d.Name}}
 	}
-	ks := []string{"string", "i32", "i64", "i16"}
+	ks := []string{"string", "i32", "i64", "i16", "double"}
 	return &TypeRef{Base: ks[ch("type.key", len(ks))]}
 }
 
